@@ -197,15 +197,20 @@ class SimulatorBase(
         # (the prefix before the first measurement or parameterized operation, or the rest).
         system_qubits = sorted(set(sim_state.qubits) | circuit.all_qubits())
         noisy_moments = self.noise.noisy_moments(circuit, system_qubits)
-        measured: dict[tuple[cirq.Qid, ...], bool] = collections.defaultdict(bool)
+        measured: dict[cirq.Qid, bool] = collections.defaultdict(bool)
         for moment in noisy_moments:
             for op in ops.flatten_to_ops(moment):
                 try:
                     # Preprocess measurements
-                    if all_measurements_are_terminal and measured[op.qubits]:
+                    if (
+                        all_measurements_are_terminal
+                        and op.qubits
+                        and all(measured[q] for q in op.qubits)
+                    ):
                         continue
                     if isinstance(op.gate, ops.MeasurementGate):
-                        measured[op.qubits] = True
+                        for q in op.qubits:
+                            measured[q] = True
                         if all_measurements_are_terminal:
                             continue
 
